@@ -109,7 +109,7 @@ CHECKS = {
     'C12': dict(
         technique='TLA+ spec StoneRuns (process histories) enumerated by TLC; each history executed in a real process; the recorded log validated against the specification by TLC (StoneRunsTrace, total verdicts)',
         text='TLC enumerates process histories: hash seed x {fresh, after the same backend on another spec, after another backend on the same '
-             'spec} x output directory x 17 backend rows x 3 spec sets (the second with inherited omitted callers and annotation chains, the third compiled with a route whitelist over cyclic, annotated types). Every history is executed in its own process with PYTHONHASHSEED '
+             'spec} x output directory x 19 backend rows x 3 spec sets (the second with inherited omitted callers and annotation chains, the third compiled with a route whitelist over cyclic, annotated types). Every history is executed in its own process with PYTHONHASHSEED '
              'set; each run logs a digest over relative paths and bytes of the files written. The log (ndjson) is read back by TLC: '
              'StoneRunsTrace reconstructs Generate as memo[backend row, spec set] and an event whose digest differs cannot be explained; '
              'failing events are collected (total verdict) and reported through a POSTCONDITION.',
@@ -163,7 +163,7 @@ CHECKS = {
              'multiline lists) and checks Verbatim (escape-on-emit + str.format-at-close = reference lines) and EscapeFormatIdentity; all '
              'open/copy/swift-write scripts of <=3 operations and checks ManifestFidelity. Each state is replayed in a sandbox whose PARENT '
              'directory is snapshotted before and after: through output_to_relative_path, copy_to_path and the Swift writer; file bytes '
-             'compared with the predicted text; manifest output compared with the files of the real run; plus all 17 built-in backend rows '
+             'compared with the predicted text; manifest output compared with the files of the real run; plus all 19 built-in backend rows '
              'in real and manifest mode on two spec sets.',
         ref='3.8, 4 (C18)'),
     'C19': dict(
